@@ -34,7 +34,8 @@ def run(ctx):
             ctx.violation("rejected-valid", "%s: valid schema rejected: %s" % (rec["label"], (c["stderr"] or "")[-300:]), slim(c))
             continue
         if not c.get("deterministic", True):
-            ctx.violation("nondeterministic-output", "%s: generating twice from the same sources gave different files" % rec["label"], slim(c))
+            ctx.violation("nondeterministic-output", "%s: generating over the output of a larger version of the package and generating into an "
+                          "empty directory gave different files" % rec["label"], slim(c))
         if c["build_errors"]:
             errs = "\n".join(sum(c["build_errors"].values(), []))[:900]
             sig = "identifier-mapping" if list(c["build_errors"].keys()) == ["reg"] else "uncompilable"
